@@ -1,17 +1,1532 @@
-//! C09 — correspondence driver (stub: not built yet).
+//! C09 — iterators.  See lean/Driver/C09.lean for the protocol.
+//!
+//! Every operation builds its source from scratch (the case header only stores the
+//! description), runs the requested iterator for `n` calls and records, before every call,
+//! `size_hint()` and `len()`, then the item.  Leaves hold ids equal to their storage offset, so
+//! the cell an item comes from is observable; for the reference flavours the cell is computed
+//! from the item's *address* relative to the leaf's base pointer.
 
 use crate::util::*;
+use crate::with_d;
+use easy_ml::matrices::iterators as mi;
+use easy_ml::matrices::views::{
+    IndexRange as MIndexRange, MatrixMut, MatrixRange, MatrixRef, MatrixReverse, MatrixView, Reverse,
+};
+use easy_ml::matrices::Matrix;
+use easy_ml::tensors::indexing::{
+    ShapeIterator, TensorAccess, TensorIterator, TensorOwnedIterator, TensorReferenceIterator,
+    TensorReferenceMutIterator, TensorTranspose,
+};
+use easy_ml::tensors::views::{
+    IndexRange as TIndexRange, TensorMask, TensorMut, TensorRange, TensorRef, TensorRename,
+    TensorReverse, TensorView,
+};
+use easy_ml::tensors::Tensor;
+use std::cell::RefCell;
 
-pub fn gen(_g: &mut Gen) {}
+// ---------------------------------------------------------------------------------------------
+// element types
+// ---------------------------------------------------------------------------------------------
 
-pub struct Runner;
+const PLACEHOLDER: u64 = u64::MAX;
+
+thread_local! {
+    /// drops seen per id (index = id), placeholders created, placeholders dropped
+    static DROPS: RefCell<(Vec<u32>, u64, u64)> = RefCell::new((vec![], 0, 0));
+}
+
+/// A drop-counting element type without `Clone`/`Copy`; `Default` makes a placeholder.
+#[derive(Debug)]
+pub struct Dc {
+    id: u64,
+}
+
+impl Dc {
+    fn new(id: u64) -> Dc {
+        Dc { id }
+    }
+    fn show(&self) -> String {
+        if self.id == PLACEHOLDER { "P".into() } else { self.id.to_string() }
+    }
+}
+
+impl Default for Dc {
+    fn default() -> Dc {
+        DROPS.with(|d| d.borrow_mut().1 += 1);
+        Dc { id: PLACEHOLDER }
+    }
+}
+
+impl Drop for Dc {
+    fn drop(&mut self) {
+        DROPS.with(|d| {
+            let mut d = d.borrow_mut();
+            if self.id == PLACEHOLDER {
+                d.2 += 1;
+            } else {
+                let i = self.id as usize;
+                if d.0.len() <= i {
+                    d.0.resize(i + 1, 0);
+                }
+                d.0[i] += 1;
+            }
+        });
+    }
+}
+
+fn drops_reset() {
+    DROPS.with(|d| *d.borrow_mut() = (vec![], 0, 0));
+}
+
+fn drops_of(id: usize) -> u32 {
+    DROPS.with(|d| d.borrow().0.get(id).copied().unwrap_or(0))
+}
+
+fn placeholders() -> (u64, u64) {
+    DROPS.with(|d| {
+        let d = d.borrow();
+        (d.1, d.2)
+    })
+}
+
+/// A heap cell whose address stays put and that can be lent out as `&'static mut`
+/// (needed because `Box<dyn TensorMut<_, D>>` must be `'static`) and inspected afterwards.
+struct Leaf<T> {
+    raw: *mut T,
+}
+
+impl<T> Leaf<T> {
+    fn new(t: T) -> Leaf<T> {
+        Leaf { raw: Box::into_raw(Box::new(t)) }
+    }
+    /// Safety: the returned borrow (and everything derived from it) must be dead before the
+    /// next call of `get`, `lend` or `take`.
+    unsafe fn lend(&self) -> &'static mut T {
+        &mut *self.raw
+    }
+    fn get(&self) -> &T {
+        unsafe { &*self.raw }
+    }
+    fn take(self) -> T {
+        let t = unsafe { *Box::from_raw(self.raw) };
+        std::mem::forget(self);
+        t
+    }
+}
+
+impl<T> Drop for Leaf<T> {
+    fn drop(&mut self) {
+        unsafe { drop(Box::from_raw(self.raw)) }
+    }
+}
+
+/// The leaf's cells in storage order, read through the *checked* accessor with indexes computed
+/// here (not with the iterators under test).
+fn tensor_cells<E, R, const D: usize>(t: &Tensor<E, D>, f: impl Fn(&E) -> R) -> Vec<R> {
+    let shape = t.shape();
+    let total: usize = shape.iter().map(|d| d.1).product();
+    (0..total)
+        .map(|o| {
+            let mut rest = o;
+            let mut idx = [0usize; D];
+            for d in (0..D).rev() {
+                idx[d] = rest % shape[d].1;
+                rest /= shape[d].1;
+            }
+            f(TensorRef::get_reference(t, idx).expect("leaf cell"))
+        })
+        .collect()
+}
+
+fn matrix_cells<E, R>(m: &Matrix<E>, f: impl Fn(&E) -> R) -> Vec<R> {
+    let (rows, cols) = m.size();
+    let mut out = vec![];
+    for r in 0..rows {
+        for c in 0..cols {
+            out.push(f(m.get_reference(r, c)));
+        }
+    }
+    out
+}
+
+// ---------------------------------------------------------------------------------------------
+// recording
+// ---------------------------------------------------------------------------------------------
+
+trait ShowIdx {
+    fn show_idx(&self) -> String;
+}
+
+impl<const D: usize> ShowIdx for [usize; D] {
+    fn show_idx(&self) -> String {
+        if D == 0 {
+            "*".into()
+        } else {
+            self.iter().map(|x| x.to_string()).collect::<Vec<_>>().join(".")
+        }
+    }
+}
+
+impl ShowIdx for (usize, usize) {
+    fn show_idx(&self) -> String {
+        format!("{}.{}", self.0, self.1)
+    }
+}
+
+/// `size_hint()`, `len()`, `next()` for `n` calls; `show` renders (and may keep) an item.
+fn drive<I: ExactSizeIterator>(
+    make: impl FnOnce() -> I,
+    n: usize,
+    mut show: impl FnMut(I::Item) -> String,
+) -> String {
+    let mut it = match catch(make) {
+        Ok(it) => it,
+        Err(k) => return panic_str(k),
+    };
+    let mut recs: Vec<String> = vec![];
+    for _ in 0..n {
+        let head = match catch(|| it.size_hint()) {
+            Err(k) => panic_str(k),
+            Ok((lo, hi)) => {
+                let his = match hi {
+                    Some(h) => h.to_string(),
+                    None => "n".into(),
+                };
+                let len = match catch(|| it.len()) {
+                    Ok(l) => l.to_string(),
+                    Err(k) => panic_str(k),
+                };
+                format!("{}/{}/{}", lo, his, len)
+            }
+        };
+        match catch(|| it.next()) {
+            Err(k) => {
+                recs.push(format!("{}:{}", head, panic_str(k)));
+                break;
+            }
+            Ok(None) => recs.push(format!("{}:-", head)),
+            Ok(Some(x)) => {
+                let s = show(x);
+                recs.push(format!("{}:{}", head, s));
+            }
+        }
+    }
+    recs.join(";")
+}
+
+/// where the cell of a reference lives, as an offset from the leaf's first element
+#[derive(Clone, Copy)]
+struct Base(*const u64);
+
+impl Base {
+    fn cell(&self, r: &u64) -> String {
+        let p = r as *const u64 as usize;
+        let b = self.0 as usize;
+        if p < b || (p - b) % 8 != 0 {
+            return format!("!addr{:x}", p);
+        }
+        let o = (p - b) / 8;
+        if *r != o as u64 {
+            // ids equal offsets until something is written: a stale or foreign cell
+            format!("{}!val{}", o, *r)
+        } else {
+            o.to_string()
+        }
+    }
+}
+
+fn run_copy<I: ExactSizeIterator<Item = u64>>(make: impl FnOnce() -> I, n: usize) -> String {
+    drive(make, n, |v| v.to_string())
+}
+
+fn run_copy_wi<X: ShowIdx, I: ExactSizeIterator<Item = (X, u64)>>(
+    make: impl FnOnce() -> I,
+    n: usize,
+) -> String {
+    drive(make, n, |(i, v)| format!("{}@{}", v, i.show_idx()))
+}
+
+fn run_ref<'a, I: ExactSizeIterator<Item = &'a u64>>(
+    make: impl FnOnce() -> I,
+    n: usize,
+    base: Base,
+) -> String {
+    drive(make, n, |r| base.cell(r))
+}
+
+fn run_ref_wi<'a, X: ShowIdx, I: ExactSizeIterator<Item = (X, &'a u64)>>(
+    make: impl FnOnce() -> I,
+    n: usize,
+    base: Base,
+) -> String {
+    drive(make, n, |(i, r)| format!("{}@{}", base.cell(r), i.show_idx()))
+}
+
+/// The mutable flavours keep every handed-out `&mut` alive until the end, then write through
+/// all of them; returns the records and the cells written.
+fn run_mut<'a, I: ExactSizeIterator<Item = &'a mut u64>>(
+    make: impl FnOnce() -> I,
+    n: usize,
+    base: Base,
+) -> (String, Vec<usize>) {
+    let mut refs: Vec<&'a mut u64> = vec![];
+    let s = drive(make, n, |r| {
+        let c = base.cell(r);
+        refs.push(r);
+        c
+    });
+    (s, write_all(refs, base))
+}
+
+fn run_mut_wi<'a, X: ShowIdx, I: ExactSizeIterator<Item = (X, &'a mut u64)>>(
+    make: impl FnOnce() -> I,
+    n: usize,
+    base: Base,
+) -> (String, Vec<usize>) {
+    let mut refs: Vec<&'a mut u64> = vec![];
+    let s = drive(make, n, |(i, r)| {
+        let c = format!("{}@{}", base.cell(r), i.show_idx());
+        refs.push(r);
+        c
+    });
+    (s, write_all(refs, base))
+}
+
+const BUMP: u64 = 1000;
+
+fn write_all(refs: Vec<&mut u64>, base: Base) -> Vec<usize> {
+    let cells: Vec<usize> =
+        refs.iter().map(|r| ((*r as *const u64 as usize).wrapping_sub(base.0 as usize)) / 8).collect();
+    for r in refs {
+        *r += BUMP;
+    }
+    cells
+}
+
+/// every written cell was bumped exactly once, nothing else changed, no cell handed out twice
+fn distinct_report(cells: &[usize], leaf_now: &[u64]) -> &'static str {
+    let mut seen = vec![0u32; leaf_now.len()];
+    for &c in cells {
+        if c >= seen.len() {
+            return " distinct=OUTSIDE";
+        }
+        seen[c] += 1;
+    }
+    for (o, &v) in leaf_now.iter().enumerate() {
+        if seen[o] > 1 || v != o as u64 + BUMP * seen[o] as u64 {
+            return " distinct=ALIAS";
+        }
+    }
+    " distinct=ok"
+}
+
+fn run_owned<I: ExactSizeIterator<Item = Dc>>(make: impl FnOnce() -> I, n: usize) -> (String, Vec<Dc>) {
+    let mut moved = vec![];
+    let s = drive(make, n, |v| {
+        let s = v.show();
+        moved.push(v);
+        s
+    });
+    (s, moved)
+}
+
+fn run_owned_wi<X: ShowIdx, I: ExactSizeIterator<Item = (X, Dc)>>(
+    make: impl FnOnce() -> I,
+    n: usize,
+) -> (String, Vec<Dc>) {
+    let mut moved = vec![];
+    let s = drive(make, n, |(i, v)| {
+        let s = format!("{}@{}", v.show(), i.show_idx());
+        moved.push(v);
+        s
+    });
+    (s, moved)
+}
+
+/// After the moved-out values, the iterator and the leaf have all been dropped: every original
+/// value was dropped exactly once and every placeholder that was made was dropped.
+fn drops_report(total: usize) -> String {
+    for id in 0..total {
+        if drops_of(id) != 1 {
+            return format!(" drops=BAD(id{}x{})", id, drops_of(id));
+        }
+    }
+    let (made, dropped) = placeholders();
+    if made != dropped {
+        return format!(" drops=BAD(placeholders{}/{})", made, dropped);
+    }
+    " drops=ok".into()
+}
+
+fn show_left(vals: impl Iterator<Item = String>) -> String {
+    let v: Vec<String> = vals.collect();
+    format!("left={}", if v.is_empty() { "-".to_string() } else { v.join(",") })
+}
+
+// ---------------------------------------------------------------------------------------------
+// case descriptions
+// ---------------------------------------------------------------------------------------------
+
+#[derive(Clone, Debug)]
+enum TAd {
+    Range(Vec<(&'static str, usize, usize)>),
+    Mask(Vec<(&'static str, usize, usize)>),
+    Rename(Vec<&'static str>),
+    Reverse(Vec<&'static str>),
+    Access(Vec<&'static str>),
+    Transpose(Vec<&'static str>),
+}
+
+#[derive(Clone, Debug)]
+enum MAd {
+    Range(usize, usize, usize, usize),
+    Reverse(bool, bool),
+}
+
+fn show_tad(a: &TAd) -> String {
+    match a {
+        TAd::Range(rs) => format!(
+            "range:{}",
+            rs.iter().map(|(n, s, l)| format!("{}.{}.{}", n, s, l)).collect::<Vec<_>>().join(",")
+        ),
+        TAd::Mask(rs) => format!(
+            "mask:{}",
+            rs.iter().map(|(n, s, l)| format!("{}.{}.{}", n, s, l)).collect::<Vec<_>>().join(",")
+        ),
+        TAd::Rename(ns) => format!("rename:{}", show_names(ns)),
+        TAd::Reverse(ns) => format!("reverse:{}", show_names(ns)),
+        TAd::Access(ns) => format!("access:{}", show_names(ns)),
+        TAd::Transpose(ns) => format!("transpose:{}", show_names(ns)),
+    }
+}
+
+fn show_mad(a: &MAd) -> String {
+    match a {
+        MAd::Range(rs, rl, cs, cl) => format!("range:{}.{}.{}.{}", rs, rl, cs, cl),
+        MAd::Reverse(r, c) => format!(
+            "reverse:{}",
+            match (r, c) {
+                (true, true) => "rc",
+                (true, false) => "r",
+                (false, true) => "c",
+                (false, false) => "-",
+            }
+        ),
+    }
+}
+
+fn parse_tad(tok: &str) -> TAd {
+    let (kind, spec) = tok.split_once(':').expect("adaptor");
+    match kind {
+        "range" => TAd::Range(
+            split_comma(spec)
+                .iter()
+                .map(|p| {
+                    let parts: Vec<&str> = p.split('.').collect();
+                    (intern(parts[0]), parts[1].parse().unwrap(), parts[2].parse().unwrap())
+                })
+                .collect(),
+        ),
+        "mask" => TAd::Mask(
+            split_comma(spec)
+                .iter()
+                .map(|p| {
+                    let parts: Vec<&str> = p.split('.').collect();
+                    (intern(parts[0]), parts[1].parse().unwrap(), parts[2].parse().unwrap())
+                })
+                .collect(),
+        ),
+        "rename" => TAd::Rename(parse_names(spec)),
+        "reverse" => TAd::Reverse(parse_names(spec)),
+        "access" => TAd::Access(parse_names(spec)),
+        "transpose" => TAd::Transpose(parse_names(spec)),
+        other => panic!("unknown adaptor {}", other),
+    }
+}
+
+fn parse_mad(tok: &str) -> MAd {
+    let (kind, spec) = tok.split_once(':').expect("adaptor");
+    match kind {
+        "range" => {
+            let p: Vec<usize> = spec.split('.').map(|x| x.parse().unwrap()).collect();
+            MAd::Range(p[0], p[1], p[2], p[3])
+        }
+        "reverse" => MAd::Reverse(spec.contains('r'), spec.contains('c')),
+        other => panic!("unknown adaptor {}", other),
+    }
+}
+
+type BoxT<E, const D: usize> = Box<dyn TensorMut<E, D>>;
+type BoxM<E> = Box<dyn MatrixMut<E>>;
+
+/// Compose the adaptors at run time over a boxed source.  `Err` = a constructor refused.
+fn build_tensor<E: 'static, const D: usize>(
+    leaf: &'static mut Tensor<E, D>,
+    ads: &[TAd],
+) -> Result<BoxT<E, D>, String> {
+    let mut src: BoxT<E, D> = Box::new(leaf);
+    for ad in ads {
+        src = match ad {
+            TAd::Range(rs) => {
+                let shape = src.view_shape();
+                let mut all: [Option<TIndexRange>; D] = std::array::from_fn(|_| None);
+                for (name, start, len) in rs {
+                    match shape.iter().position(|d| d.0 == *name) {
+                        Some(d) => all[d] = Some(TIndexRange::new(*start, *len)),
+                        None => return Err("reject".into()),
+                    }
+                }
+                match catch(move || TensorRange::from_all(src, all)) {
+                    Ok(Ok(r)) => Box::new(r),
+                    Ok(Err(_)) => return Err("reject".into()),
+                    Err(k) => return Err(panic_str(k)),
+                }
+            }
+            TAd::Mask(ms) => {
+                let shape = src.view_shape();
+                let mut all: [Option<TIndexRange>; D] = std::array::from_fn(|_| None);
+                for (name, start, len) in ms {
+                    match shape.iter().position(|d| d.0 == *name) {
+                        Some(d) => all[d] = Some(TIndexRange::new(*start, *len)),
+                        None => return Err("reject".into()),
+                    }
+                }
+                match catch(move || TensorMask::from_all(src, all)) {
+                    Ok(Ok(r)) => Box::new(r),
+                    Ok(Err(_)) => return Err("reject".into()),
+                    Err(k) => return Err(panic_str(k)),
+                }
+            }
+            TAd::Rename(names) => {
+                if names.len() != D {
+                    return Err("reject".into());
+                }
+                let names: [&'static str; D] = names_array(names);
+                match catch(move || TensorRename::from(src, names)) {
+                    Ok(r) => Box::new(r),
+                    Err(PanicKind::Explicit) => return Err("reject".into()),
+                    Err(k) => return Err(panic_str(k)),
+                }
+            }
+            TAd::Reverse(names) => {
+                let names = names.clone();
+                match catch(move || TensorReverse::from(src, &names)) {
+                    Ok(r) => Box::new(r),
+                    Err(PanicKind::Explicit) => return Err("reject".into()),
+                    Err(k) => return Err(panic_str(k)),
+                }
+            }
+            TAd::Access(names) => {
+                if names.len() != D {
+                    return Err("reject".into());
+                }
+                let names: [&'static str; D] = names_array(names);
+                match catch(move || TensorAccess::try_from(src, names)) {
+                    Ok(Ok(r)) => Box::new(r),
+                    Ok(Err(_)) => return Err("reject".into()),
+                    Err(k) => return Err(panic_str(k)),
+                }
+            }
+            TAd::Transpose(names) => {
+                if names.len() != D {
+                    return Err("reject".into());
+                }
+                let names: [&'static str; D] = names_array(names);
+                match catch(move || TensorTranspose::try_from(src, names)) {
+                    Ok(Ok(r)) => Box::new(r),
+                    Ok(Err(_)) => return Err("reject".into()),
+                    Err(k) => return Err(panic_str(k)),
+                }
+            }
+        };
+    }
+    Ok(src)
+}
+
+fn build_matrix<E: 'static>(leaf: &'static mut Matrix<E>, ads: &[MAd]) -> BoxM<E> {
+    let mut src: BoxM<E> = Box::new(leaf);
+    for ad in ads {
+        src = match ad {
+            MAd::Range(rs, rl, cs, cl) => Box::new(MatrixRange::from(
+                src,
+                MIndexRange::new(*rs, *rl),
+                MIndexRange::new(*cs, *cl),
+            )),
+            MAd::Reverse(r, c) => Box::new(MatrixReverse::from(src, Reverse { rows: *r, columns: *c })),
+        };
+    }
+    src
+}
+
+// ---------------------------------------------------------------------------------------------
+// running the tensor iterators
+// ---------------------------------------------------------------------------------------------
+
+struct Op<'a> {
+    op: &'a str,
+    kind: &'a str,
+    a: usize,
+    f: &'a str,
+    wi: bool,
+    n: usize,
+    via: &'a str,
+}
+
+fn parse_op<'a>(op: &'a str, rest: &[&'a str]) -> Op<'a> {
+    Op {
+        op,
+        kind: opt_arg("k", rest).unwrap_or("rowmajor"),
+        a: opt_arg("a", rest).map(|x| x.parse().unwrap()).unwrap_or(0),
+        f: opt_arg("f", rest).unwrap_or(if op == "left" { "owned" } else { "copy" }),
+        wi: opt_arg("wi", rest) == Some("1"),
+        n: opt_arg("n", rest).map(|x| x.parse().unwrap()).unwrap_or(0),
+        via: opt_arg("via", rest).unwrap_or("boxed"),
+    }
+}
+
+fn access_names<const D: usize>(ads: &[TAd]) -> Option<[&'static str; D]> {
+    match ads {
+        [TAd::Access(names)] if names.len() == D => Some(names_array(names)),
+        _ => None,
+    }
+}
+
+fn tensor_u64<const D: usize>(shape: &[(&'static str, usize)], ads: &[TAd], op: &Op) -> String {
+    let shape: [(&'static str, usize); D] = shape_array(shape);
+    let total: usize = shape.iter().map(|d| d.1).product();
+    let leaf = Leaf::new(Tensor::from(shape, (0..total as u64).collect()));
+    let base = Base(TensorRef::get_reference(leaf.get(), [0; D]).unwrap() as *const u64);
+    let n = op.n;
+    let mut written: Option<Vec<usize>> = None;
+    let recs: String = {
+        // Safety: `t` and everything built from it die at the end of this block
+        let t: &'static mut Tensor<u64, D> = unsafe { leaf.lend() };
+        match (op.via, op.f, op.wi) {
+            // inherent methods of Tensor
+            ("tensor", "copy", false) => run_copy(|| t.iter(), n),
+            ("tensor", "copy", true) => run_copy_wi(|| t.iter().with_index(), n),
+            ("tensor", "ref", false) => run_ref(|| t.iter_reference(), n, base),
+            ("tensor", "ref", true) => run_ref_wi(|| t.iter_reference().with_index(), n, base),
+            ("tensor", "mut", false) => {
+                let (s, w) = run_mut(|| t.iter_reference_mut(), n, base);
+                written = Some(w);
+                s
+            }
+            ("tensor", "mut", true) => {
+                let (s, w) = run_mut_wi(|| t.iter_reference_mut().with_index(), n, base);
+                written = Some(w);
+                s
+            }
+            // the iterator structs' own constructors on the container
+            ("from", "copy", false) => run_copy(|| TensorIterator::from(&*t), n),
+            ("from", "copy", true) => run_copy_wi(|| TensorIterator::from(&*t).with_index(), n),
+            ("from", "ref", false) => run_ref(|| TensorReferenceIterator::from(&*t), n, base),
+            ("from", "ref", true) => run_ref_wi(|| TensorReferenceIterator::from(&*t).with_index(), n, base),
+            ("from", "mut", false) => {
+                let (s, w) = run_mut(|| TensorReferenceMutIterator::from(&mut *t), n, base);
+                written = Some(w);
+                s
+            }
+            ("from", "mut", true) => {
+                let (s, w) = run_mut_wi(|| TensorReferenceMutIterator::from(&mut *t).with_index(), n, base);
+                written = Some(w);
+                s
+            }
+            // TensorView over a borrowed tensor
+            ("view", "copy", false) => { let v = TensorView::from(&*t); run_copy(|| v.iter(), n) }
+            ("view", "copy", true) => { let v = TensorView::from(&*t); run_copy_wi(|| v.iter().with_index(), n) }
+            ("view", "ref", false) => { let v = TensorView::from(&*t); run_ref(|| v.iter_reference(), n, base) }
+            ("view", "ref", true) => {
+                let v = TensorView::from(&*t);
+                run_ref_wi(|| v.iter_reference().with_index(), n, base)
+            }
+            ("view", "mut", false) => {
+                let mut v = TensorView::from(&mut *t);
+                let (s, w) = run_mut(|| v.iter_reference_mut(), n, base);
+                written = Some(w);
+                s
+            }
+            ("view", "mut", true) => {
+                let mut v = TensorView::from(&mut *t);
+                let (s, w) = run_mut_wi(|| v.iter_reference_mut().with_index(), n, base);
+                written = Some(w);
+                s
+            }
+            // TensorAccess's own methods (only when the single adaptor is an access)
+            ("access", f, wi) => {
+                let names: [&'static str; D] = access_names(ads).expect("via=access needs one access adaptor");
+                match (f, wi) {
+                    ("copy", false) => { let a = t.index_by(names); run_copy(|| a.iter(), n) }
+                    ("copy", true) => { let a = t.index_by(names); run_copy_wi(|| a.iter().with_index(), n) }
+                    ("ref", false) => { let a = t.index_by(names); run_ref(|| a.iter_reference(), n, base) }
+                    ("ref", true) => {
+                        let a = t.index_by(names);
+                        run_ref_wi(|| a.iter_reference().with_index(), n, base)
+                    }
+                    ("mut", false) => {
+                        let mut a = t.index_by_mut(names);
+                        let (s, w) = run_mut(|| a.iter_reference_mut(), n, base);
+                        written = Some(w);
+                        s
+                    }
+                    ("mut", true) => {
+                        let mut a = t.index_by_mut(names);
+                        let (s, w) = run_mut_wi(|| a.iter_reference_mut().with_index(), n, base);
+                        written = Some(w);
+                        s
+                    }
+                    _ => "bad-op".into(),
+                }
+            }
+            // any composition, through Box<dyn TensorMut>
+            (via, f, wi) => {
+                let mut src = match build_tensor(t, ads) {
+                    Ok(s) => s,
+                    Err(e) => return e,
+                };
+                match (via, f, wi) {
+                    ("boxed", "copy", false) => run_copy(|| TensorIterator::from(&src), n),
+                    ("boxed", "copy", true) => run_copy_wi(|| TensorIterator::from(&src).with_index(), n),
+                    ("boxed", "ref", false) => run_ref(|| TensorReferenceIterator::from(&src), n, base),
+                    ("boxed", "ref", true) => {
+                        run_ref_wi(|| TensorReferenceIterator::from(&src).with_index(), n, base)
+                    }
+                    ("boxed", "mut", false) => {
+                        let (s, w) = run_mut(|| TensorReferenceMutIterator::from(&mut src), n, base);
+                        written = Some(w);
+                        s
+                    }
+                    ("boxed", "mut", true) => {
+                        let (s, w) =
+                            run_mut_wi(|| TensorReferenceMutIterator::from(&mut src).with_index(), n, base);
+                        written = Some(w);
+                        s
+                    }
+                    ("boxedview", f, wi) => {
+                        let mut v = TensorView::from(src);
+                        match (f, wi) {
+                            ("copy", false) => run_copy(|| v.iter(), n),
+                            ("copy", true) => run_copy_wi(|| v.iter().with_index(), n),
+                            ("ref", false) => run_ref(|| v.iter_reference(), n, base),
+                            ("ref", true) => run_ref_wi(|| v.iter_reference().with_index(), n, base),
+                            ("mut", false) => {
+                                let (s, w) = run_mut(|| v.iter_reference_mut(), n, base);
+                                written = Some(w);
+                                s
+                            }
+                            ("mut", true) => {
+                                let (s, w) = run_mut_wi(|| v.iter_reference_mut().with_index(), n, base);
+                                written = Some(w);
+                                s
+                            }
+                            _ => "bad-op".into(),
+                        }
+                    }
+                    _ => "bad-op".into(),
+                }
+            }
+        }
+    };
+    match written {
+        Some(cells) => {
+            let now: Vec<u64> = tensor_cells(leaf.get(), |v| *v);
+            format!("{}{}", recs, distinct_report(&cells, &now))
+        }
+        None => recs,
+    }
+}
+
+fn tensor_owned<const D: usize>(shape: &[(&'static str, usize)], ads: &[TAd], op: &Op) -> String {
+    let shape: [(&'static str, usize); D] = shape_array(shape);
+    let total: usize = shape.iter().map(|d| d.1).product();
+    drops_reset();
+    let make_leaf = || Tensor::from(shape, (0..total as u64).map(Dc::new).collect());
+    let n = op.n;
+    // consuming forms: the container itself is moved into the iterator
+    if op.via == "tensor" || op.via == "view" {
+        let t = make_leaf();
+        let (recs, moved) = match (op.via, op.wi) {
+            ("tensor", false) => run_owned(move || t.iter_owned(), n),
+            ("tensor", true) => run_owned_wi(move || t.iter_owned().with_index(), n),
+            ("view", false) => run_owned(move || TensorView::from(t).iter_owned(), n),
+            (_, _) => run_owned_wi(move || TensorView::from(t).iter_owned().with_index(), n),
+        };
+        drop(moved);
+        return format!("{}{}", recs, drops_report(total));
+    }
+    let leaf = Leaf::new(make_leaf());
+    let (recs, moved) = {
+        // Safety: `t` and everything built from it die at the end of this block
+        let t: &'static mut Tensor<Dc, D> = unsafe { leaf.lend() };
+        match (op.via, op.wi) {
+            // source held by `&mut`
+            ("from", false) => run_owned(|| TensorOwnedIterator::from(&mut *t), n),
+            ("from", true) => run_owned_wi(|| TensorOwnedIterator::from(&mut *t).with_index(), n),
+            ("access", wi) => {
+                let names: [&'static str; D] = access_names(ads).expect("via=access needs one access adaptor");
+                let a = t.index_by_mut(names);
+                if wi {
+                    run_owned_wi(move || TensorOwnedIterator::from(a).with_index(), n)
+                } else {
+                    run_owned(move || TensorOwnedIterator::from(a), n)
+                }
+            }
+            (via, wi) => {
+                let src = match build_tensor(t, ads) {
+                    Ok(s) => s,
+                    Err(e) => return e,
+                };
+                match (via, wi) {
+                    ("boxed", false) => run_owned(move || TensorOwnedIterator::from(src), n),
+                    ("boxed", true) => run_owned_wi(move || TensorOwnedIterator::from(src).with_index(), n),
+                    ("boxedview", false) => run_owned(move || TensorView::from(src).iter_owned(), n),
+                    ("boxedview", true) => {
+                        run_owned_wi(move || TensorView::from(src).iter_owned().with_index(), n)
+                    }
+                    _ => return "bad-op".into(),
+                }
+            }
+        }
+    };
+    if op.op == "left" {
+        let s = show_left(tensor_cells(leaf.get(), |d| d.show()).into_iter());
+        drop(moved);
+        return s;
+    }
+    drop(moved);
+    drop(leaf);
+    format!("{}{}", recs, drops_report(total))
+}
+
+fn shape_iter<const D: usize>(lens: &[usize], n: usize) -> String {
+    let shape: [(&'static str, usize); D] = std::array::from_fn(|d| (NAME_POOL[d], lens[d]));
+    let recs = drive(|| ShapeIterator::from(shape), n, |i| i.show_idx());
+    let mut total: u128 = 1;
+    for &l in lens {
+        total = total.saturating_mul(l as u128);
+    }
+    if lens.iter().any(|&l| l == 0) {
+        total = 0;
+    }
+    if total > u64::MAX as u128 {
+        format!("unrepresentable-length ## {}", recs)
+    } else {
+        recs
+    }
+}
+
+// ---------------------------------------------------------------------------------------------
+// running the matrix iterators
+// ---------------------------------------------------------------------------------------------
+
+/// The five copying / reference / mutable iterator kinds over one source expression.
+macro_rules! matrix_kinds {
+    ($op:expr, $plain:ident, $wi:ident, [$($extra:expr),*],
+     rm: $rm:expr, cm: $cm:expr, row: $row:expr, col: $col:expr, diag: $diag:expr) => {
+        match ($op.kind, $op.wi) {
+            ("rowmajor", false) => $plain(|| $rm, $op.n $(, $extra)*),
+            ("rowmajor", true) => $wi(|| $rm.with_index(), $op.n $(, $extra)*),
+            ("colmajor", false) => $plain(|| $cm, $op.n $(, $extra)*),
+            ("colmajor", true) => $wi(|| $cm.with_index(), $op.n $(, $extra)*),
+            ("row", _) => $plain(|| $row, $op.n $(, $extra)*),
+            ("col", _) => $plain(|| $col, $op.n $(, $extra)*),
+            ("diag", _) => $plain(|| $diag, $op.n $(, $extra)*),
+            _ => return "bad-op".into(),
+        }
+    };
+}
+
+fn matrix_u64(rows: usize, cols: usize, ads: &[MAd], op: &Op) -> String {
+    let total = rows * cols;
+    let leaf = Leaf::new(Matrix::from_flat_row_major((rows, cols), (0..total as u64).collect()));
+    let base = Base(leaf.get().get_reference(0, 0) as *const u64);
+    let a = op.a;
+    let mut written: Option<Vec<usize>> = None;
+    let recs: String = {
+        // Safety: `m` and everything built from it die at the end of this block
+        let m: &'static mut Matrix<u64> = unsafe { leaf.lend() };
+        match (op.via, op.f) {
+            ("matrix", "copy") => matrix_kinds!(op, run_copy, run_copy_wi, [],
+                rm: m.row_major_iter(), cm: m.column_major_iter(), row: m.row_iter(a),
+                col: m.column_iter(a), diag: m.diagonal_iter()),
+            ("matrix", "ref") => matrix_kinds!(op, run_ref, run_ref_wi, [base],
+                rm: m.row_major_reference_iter(), cm: m.column_major_reference_iter(),
+                row: m.row_reference_iter(a), col: m.column_reference_iter(a),
+                diag: m.diagonal_reference_iter()),
+            ("matrix", "mut") => {
+                let (s, w) = matrix_kinds!(op, run_mut, run_mut_wi, [base],
+                    rm: m.row_major_reference_mut_iter(), cm: m.column_major_reference_mut_iter(),
+                    row: m.row_reference_mut_iter(a), col: m.column_reference_mut_iter(a),
+                    diag: m.diagonal_reference_mut_iter());
+                written = Some(w);
+                s
+            }
+            (via, f) => {
+                let mut src = build_matrix(m, ads);
+                match (via, f) {
+                    ("from", "copy") => matrix_kinds!(op, run_copy, run_copy_wi, [],
+                        rm: mi::RowMajorIterator::from(&src), cm: mi::ColumnMajorIterator::from(&src),
+                        row: mi::RowIterator::from(&src, a), col: mi::ColumnIterator::from(&src, a),
+                        diag: mi::DiagonalIterator::from(&src)),
+                    ("from", "ref") => matrix_kinds!(op, run_ref, run_ref_wi, [base],
+                        rm: mi::RowMajorReferenceIterator::from(&src),
+                        cm: mi::ColumnMajorReferenceIterator::from(&src),
+                        row: mi::RowReferenceIterator::from(&src, a),
+                        col: mi::ColumnReferenceIterator::from(&src, a),
+                        diag: mi::DiagonalReferenceIterator::from(&src)),
+                    ("from", "mut") => {
+                        let (s, w) = matrix_kinds!(op, run_mut, run_mut_wi, [base],
+                            rm: mi::RowMajorReferenceMutIterator::from(&mut src),
+                            cm: mi::ColumnMajorReferenceMutIterator::from(&mut src),
+                            row: mi::RowReferenceMutIterator::from(&mut src, a),
+                            col: mi::ColumnReferenceMutIterator::from(&mut src, a),
+                            diag: mi::DiagonalReferenceMutIterator::from(&mut src));
+                        written = Some(w);
+                        s
+                    }
+                    ("view", f) => {
+                        let mut v = MatrixView::from(src);
+                        match f {
+                            "copy" => matrix_kinds!(op, run_copy, run_copy_wi, [],
+                                rm: v.row_major_iter(), cm: v.column_major_iter(), row: v.row_iter(a),
+                                col: v.column_iter(a), diag: v.diagonal_iter()),
+                            "ref" => matrix_kinds!(op, run_ref, run_ref_wi, [base],
+                                rm: v.row_major_reference_iter(), cm: v.column_major_reference_iter(),
+                                row: v.row_reference_iter(a), col: v.column_reference_iter(a),
+                                diag: v.diagonal_reference_iter()),
+                            "mut" => {
+                                let (s, w) = matrix_kinds!(op, run_mut, run_mut_wi, [base],
+                                    rm: v.row_major_reference_mut_iter(),
+                                    cm: v.column_major_reference_mut_iter(),
+                                    row: v.row_reference_mut_iter(a), col: v.column_reference_mut_iter(a),
+                                    diag: v.diagonal_reference_mut_iter());
+                                written = Some(w);
+                                s
+                            }
+                            _ => return "bad-op".into(),
+                        }
+                    }
+                    _ => return "bad-op".into(),
+                }
+            }
+        }
+    };
+    match written {
+        Some(cells) if !recs.starts_with("panic(") => {
+            let now: Vec<u64> = matrix_cells(leaf.get(), |v| *v);
+            format!("{}{}", recs, distinct_report(&cells, &now))
+        }
+        _ => recs,
+    }
+}
+
+fn matrix_owned(rows: usize, cols: usize, ads: &[MAd], op: &Op) -> String {
+    let total = rows * cols;
+    drops_reset();
+    let make_leaf = || Matrix::from_flat_row_major((rows, cols), (0..total as u64).map(Dc::new).collect());
+    let n = op.n;
+    if op.via == "matrix" {
+        let m = make_leaf();
+        let (recs, moved) = match (op.kind, op.wi) {
+            ("rowmajor", false) => run_owned(move || m.row_major_owned_iter(), n),
+            ("rowmajor", true) => run_owned_wi(move || m.row_major_owned_iter().with_index(), n),
+            ("colmajor", false) => run_owned(move || m.column_major_owned_iter(), n),
+            ("colmajor", true) => run_owned_wi(move || m.column_major_owned_iter().with_index(), n),
+            _ => return "bad-op".into(),
+        };
+        drop(moved);
+        return format!("{}{}", recs, drops_report(total));
+    }
+    let leaf = Leaf::new(make_leaf());
+    let (recs, moved) = {
+        // Safety: `m` and everything built from it die at the end of this block
+        let m: &'static mut Matrix<Dc> = unsafe { leaf.lend() };
+        let src = build_matrix(m, ads);
+        match (op.kind, op.wi) {
+            ("rowmajor", false) => run_owned(move || mi::RowMajorOwnedIterator::from(src), n),
+            ("rowmajor", true) => run_owned_wi(move || mi::RowMajorOwnedIterator::from(src).with_index(), n),
+            ("colmajor", false) => run_owned(move || mi::ColumnMajorOwnedIterator::from(src), n),
+            ("colmajor", true) => {
+                run_owned_wi(move || mi::ColumnMajorOwnedIterator::from(src).with_index(), n)
+            }
+            _ => return "bad-op".into(),
+        }
+    };
+    if op.op == "left" {
+        let s = show_left(matrix_cells(leaf.get(), |d| d.show()).into_iter());
+        drop(moved);
+        return s;
+    }
+    drop(moved);
+    drop(leaf);
+    format!("{}{}", recs, drops_report(total))
+}
+
+// ---------------------------------------------------------------------------------------------
+// runner
+// ---------------------------------------------------------------------------------------------
+
+enum Case {
+    None,
+    Shape(Vec<usize>),
+    Tensor(Vec<(&'static str, usize)>, Vec<TAd>),
+    Matrix(usize, usize, Vec<MAd>),
+}
+
+pub struct Runner {
+    case: Case,
+}
 
 impl Runner {
     pub fn new() -> Runner {
-        Runner
+        Runner { case: Case::None }
     }
 
-    pub fn step(&mut self, _toks: &[&str]) -> String {
-        "unimplemented".into()
+    pub fn step(&mut self, toks: &[&str]) -> String {
+        match toks {
+            ["@", "shape", lens_s] => {
+                self.case = Case::Shape(parse_usizes(lens_s));
+                "ok".into()
+            }
+            ["@", "tensor", shape_s, ads @ ..] => {
+                let shape = parse_shape(shape_s);
+                let ads: Vec<TAd> = ads.iter().map(|t| parse_tad(t)).collect();
+                // report the view shape the composed source has
+                let d = shape.len();
+                let ans = with_d!(d, D => {
+                    let shape_a: [(&'static str, usize); D] = shape_array(&shape);
+                    let total: usize = shape_a.iter().map(|d| d.1).product();
+                    match catch(|| Tensor::from(shape_a, (0..total as u64).collect::<Vec<u64>>())) {
+                        Err(_) => "reject".to_string(),
+                        Ok(t) => {
+                            let leaf = Leaf::new(t);
+                            let r = match build_tensor(unsafe { leaf.lend() }, &ads) {
+                                Ok(src) => format!("ok shape={}", show_shape(&src.view_shape())),
+                                Err(e) => e,
+                            };
+                            r
+                        }
+                    }
+                });
+                self.case = if ans.starts_with("ok") { Case::Tensor(shape, ads) } else { Case::None };
+                ans
+            }
+            ["@", "matrix", rows_s, cols_s, ads @ ..] => {
+                let rows: usize = rows_s.parse().unwrap();
+                let cols: usize = cols_s.parse().unwrap();
+                let ads: Vec<MAd> = ads.iter().map(|t| parse_mad(t)).collect();
+                let leaf = Leaf::new(Matrix::from_flat_row_major((rows, cols), vec![0u64; rows * cols]));
+                let src = build_matrix(unsafe { leaf.lend() }, &ads);
+                let ans = format!("ok size={}x{}", src.view_rows(), src.view_columns());
+                drop(src);
+                self.case = Case::Matrix(rows, cols, ads);
+                ans
+            }
+            [op @ ("iter" | "left"), rest @ ..] => {
+                let o = parse_op(op, rest);
+                match &self.case {
+                    Case::None => "no-source".into(),
+                    Case::Shape(lens) => with_d!(lens.len(), D => shape_iter::<D>(lens, o.n)),
+                    Case::Tensor(shape, ads) => {
+                        if o.f == "owned" {
+                            with_d!(shape.len(), D => tensor_owned::<D>(shape, ads, &o))
+                        } else {
+                            with_d!(shape.len(), D => tensor_u64::<D>(shape, ads, &o))
+                        }
+                    }
+                    Case::Matrix(rows, cols, ads) => {
+                        if o.f == "owned" {
+                            matrix_owned(*rows, *cols, ads, &o)
+                        } else {
+                            matrix_u64(*rows, *cols, ads, &o)
+                        }
+                    }
+                }
+            }
+            _ => "bad-op".into(),
+        }
     }
+}
+
+// ---------------------------------------------------------------------------------------------
+// generation
+// ---------------------------------------------------------------------------------------------
+
+const NAME_POOL: [&str; 8] = ["a", "b", "c", "d", "e", "f", "row", "column"];
+
+fn shapes_up_to(max_d: usize, max_product: usize) -> Vec<Vec<usize>> {
+    fn go(cur: &mut Vec<usize>, prod: usize, max_d: usize, max_product: usize, out: &mut Vec<Vec<usize>>) {
+        out.push(cur.clone());
+        if cur.len() == max_d {
+            return;
+        }
+        let mut l = 1;
+        while prod * l <= max_product {
+            cur.push(l);
+            go(cur, prod * l, max_d, max_product, out);
+            cur.pop();
+            l += 1;
+        }
+    }
+    let mut out = vec![];
+    go(&mut vec![], 1, max_d, max_product, &mut out);
+    out
+}
+
+fn named(g: &mut Gen, lens: &[usize]) -> Vec<(&'static str, usize)> {
+    let mut pool: Vec<&str> = NAME_POOL.to_vec();
+    g.rng.shuffle(&mut pool);
+    lens.iter().enumerate().map(|(i, l)| (intern(pool[i]), *l)).collect()
+}
+
+const FLAVOURS: [&str; 4] = ["copy", "ref", "mut", "owned"];
+
+/// the view shape after an adaptor (generation only needs names and lengths)
+fn shape_after(shape: &[(&'static str, usize)], ad: &TAd) -> Vec<(&'static str, usize)> {
+    match ad {
+        TAd::Range(rs) => shape
+            .iter()
+            .map(|(n, l)| match rs.iter().rev().find(|r| r.0 == *n) {
+                Some((_, s, len)) => (*n, std::cmp::min(s + len, *l).saturating_sub(*s)),
+                None => (*n, *l),
+            })
+            .collect(),
+        TAd::Mask(ms) => shape
+            .iter()
+            .map(|(n, l)| match ms.iter().rev().find(|r| r.0 == *n) {
+                Some((_, s, len)) => (*n, *l - std::cmp::min(s + len, *l).saturating_sub(*s)),
+                None => (*n, *l),
+            })
+            .collect(),
+        TAd::Rename(names) => shape.iter().zip(names.iter()).map(|(d, n)| (*n, d.1)).collect(),
+        TAd::Reverse(_) => shape.to_vec(),
+        TAd::Access(names) => {
+            names.iter().map(|n| *shape.iter().find(|d| d.0 == *n).expect("name")).collect()
+        }
+        TAd::Transpose(names) => shape
+            .iter()
+            .zip(names.iter())
+            .map(|(d, n)| (d.0, shape.iter().find(|x| x.0 == *n).expect("name").1))
+            .collect(),
+    }
+}
+
+fn random_tad(g: &mut Gen, shape: &[(&'static str, usize)]) -> Option<TAd> {
+    let d = shape.len();
+    if d == 0 {
+        return None;
+    }
+    match g.rng.below(6) {
+        4 => {
+            // hide a proper part of some dimensions that have at least two indexes
+            let mut ms = vec![];
+            for (n, l) in shape {
+                if *l >= 2 && g.rng.chance(1, 2) {
+                    let start = g.rng.below(*l);
+                    let max_len = if start == 0 { l - 1 } else { *l };
+                    let len = g.rng.range(1, max_len);
+                    // never hide everything
+                    let hidden = std::cmp::min(start + len, *l) - start;
+                    if hidden < *l {
+                        ms.push((*n, start, len));
+                    }
+                }
+            }
+            if ms.is_empty() {
+                return Some(TAd::Reverse(vec![shape[g.rng.below(d)].0]));
+            }
+            Some(TAd::Mask(ms))
+        }
+        5 => {
+            let mut pool: Vec<&str> = NAME_POOL.to_vec();
+            g.rng.shuffle(&mut pool);
+            Some(TAd::Rename(pool[..d].iter().map(|n| intern(n)).collect()))
+        }
+        0 => {
+            // a non-empty range on a random non-empty subset of the dimensions
+            let mut rs = vec![];
+            for (n, l) in shape {
+                if g.rng.chance(1, 2) {
+                    let start = g.rng.below(*l);
+                    let len = if g.rng.chance(1, 4) { l + 3 } else { g.rng.range(1, l - start) };
+                    rs.push((*n, start, len));
+                }
+            }
+            if rs.is_empty() {
+                let (n, l) = shape[g.rng.below(d)];
+                rs.push((n, g.rng.below(l), l));
+            }
+            Some(TAd::Range(rs))
+        }
+        1 => {
+            let mut ns: Vec<&'static str> = shape.iter().map(|s| s.0).filter(|_| g.rng.chance(1, 2)).collect();
+            if ns.is_empty() {
+                ns.push(shape[g.rng.below(d)].0);
+            }
+            g.rng.shuffle(&mut ns);
+            Some(TAd::Reverse(ns))
+        }
+        k => {
+            let mut ns: Vec<&'static str> = shape.iter().map(|s| s.0).collect();
+            g.rng.shuffle(&mut ns);
+            Some(if k == 2 { TAd::Access(ns) } else { TAd::Transpose(ns) })
+        }
+    }
+}
+
+fn tensor_vias(ads: &[TAd], f: &str) -> Vec<&'static str> {
+    match ads {
+        [] => vec!["tensor", "from", "view", "boxed", "boxedview"],
+        [TAd::Access(_)] => vec!["access", "boxed", "boxedview"],
+        _ => {
+            let _ = f;
+            vec!["boxed", "boxedview"]
+        }
+    }
+}
+
+fn emit_tensor_ops(g: &mut Gen, shape: &[(&'static str, usize)], ads: &[TAd], all: bool) {
+    let total: usize = shape.iter().map(|s| s.1).product();
+    let mut combos: Vec<(&str, bool)> = vec![];
+    for f in FLAVOURS {
+        for wi in [false, true] {
+            combos.push((f, wi));
+        }
+    }
+    if !all {
+        g.rng.shuffle(&mut combos);
+        combos.truncate(3);
+    }
+    for (f, wi) in combos {
+        let vias = tensor_vias(ads, f);
+        let via = *g.rng.pick(&vias);
+        g.op(format!("iter f={} wi={} n={} via={}", f, wi as u8, total + 3, via));
+        g.count(&format!("tensor.iter.f={}.wi={}", f, wi as u8));
+        g.count(&format!("tensor.via={}", via));
+        g.count_n("tensor.records", (total + 3) as u64);
+    }
+    // placeholders left behind after a prefix of an owned iteration, source held by &mut
+    let ks: Vec<usize> = if all { vec![0, g.rng.below(total + 1), total, total + 2] } else { vec![g.rng.below(total + 2)] };
+    for k in ks {
+        let vias: Vec<&str> = tensor_vias(ads, "owned").into_iter().filter(|v| *v != "tensor" && *v != "view").collect();
+        let via = *g.rng.pick(&vias);
+        g.op(format!("left n={} via={}", k, via));
+        g.count("tensor.left");
+    }
+}
+
+fn gen_tensor_cases(g: &mut Gen) {
+    let (max_d, max_p) = (4, 36);
+    for lens in shapes_up_to(max_d, max_p) {
+        let shape = named(g, &lens);
+        let d = shape.len();
+        g.count(&format!("tensor.D={}", d));
+        // the container itself: every flavour, with and without index
+        g.op(format!("@ tensor {}", show_shape(&shape)));
+        emit_tensor_ops(g, &shape, &[], true);
+        g.count("tensor.source=container");
+        if d == 0 {
+            continue;
+        }
+        // derived sources
+        let n_derived = if g.thorough { 6 } else { 2 };
+        for _ in 0..n_derived {
+            let depth = *g.rng.pick(&[1usize, 1, 1, 2, 2, 3]);
+            let mut ads = vec![];
+            let mut cur = shape.clone();
+            for _ in 0..depth {
+                if let Some(ad) = random_tad(g, &cur) {
+                    cur = shape_after(&cur, &ad);
+                    ads.push(ad);
+                }
+            }
+            let header = format!(
+                "@ tensor {} {}",
+                show_shape(&shape),
+                ads.iter().map(show_tad).collect::<Vec<_>>().join(" ")
+            );
+            g.op(header);
+            for ad in &ads {
+                g.count(match ad {
+                    TAd::Range(_) => "tensor.adaptor=range",
+                    TAd::Reverse(_) => "tensor.adaptor=reverse",
+                    TAd::Mask(_) => "tensor.adaptor=mask",
+                    TAd::Rename(_) => "tensor.adaptor=rename",
+                    TAd::Access(_) => "tensor.adaptor=access",
+                    TAd::Transpose(_) => "tensor.adaptor=transpose",
+                });
+            }
+            g.count(&format!("tensor.source=depth{}", ads.len()));
+            emit_tensor_ops(g, &cur, &ads, g.thorough);
+        }
+    }
+    // all orderings of small tensors through TensorAccess and TensorTranspose
+    for lens in shapes_up_to(3, if g.thorough { 24 } else { 12 }) {
+        if lens.len() < 2 {
+            continue;
+        }
+        let shape = named(g, &lens);
+        for perm in permutations(lens.len()) {
+            let names: Vec<&'static str> = perm.iter().map(|&p| shape[p].0).collect();
+            for ad in [TAd::Access(names.clone()), TAd::Transpose(names.clone())] {
+                g.op(format!("@ tensor {} {}", show_shape(&shape), show_tad(&ad)));
+                let cur = shape_after(&shape, &ad);
+                g.count("tensor.source=all-orderings");
+                emit_tensor_ops(g, &cur, &[ad], false);
+            }
+        }
+    }
+    // random larger dimensionalities
+    let n_random = if g.thorough { 300 } else { 40 };
+    for _ in 0..n_random {
+        let d = g.rng.range(5, 6);
+        let mut lens = vec![];
+        let mut prod = 1usize;
+        for _ in 0..d {
+            let l = g.rng.range(1, 3);
+            if prod * l > 96 {
+                lens.push(1);
+            } else {
+                lens.push(l);
+                prod *= l;
+            }
+        }
+        let shape = named(g, &lens);
+        g.count(&format!("tensor.D={}", d));
+        let mut ads = vec![];
+        let mut cur = shape.clone();
+        for _ in 0..g.rng.below(3) {
+            if let Some(ad) = random_tad(g, &cur) {
+                cur = shape_after(&cur, &ad);
+                ads.push(ad);
+            }
+        }
+        g.op(format!(
+            "@ tensor {} {}",
+            show_shape(&shape),
+            ads.iter().map(show_tad).collect::<Vec<_>>().join(" ")
+        ));
+        g.count(&format!("tensor.source=depth{}", ads.len()));
+        emit_tensor_ops(g, &cur, &ads, false);
+    }
+    // ranges that select nothing are refused by the constructor
+    for (shape, ad) in [
+        (vec![("a", 2usize), ("b", 3usize)], "range:b.3.5"),
+        (vec![("a", 2), ("b", 3)], "range:a.0.0"),
+        (vec![("a", 2), ("b", 3)], "range:zz.0.1"),
+        (vec![("a", 2), ("b", 3)], "reverse:zz"),
+        (vec![("a", 2), ("b", 3)], "access:a,a"),
+        (vec![("a", 2), ("b", 3)], "mask:b.0.3"),
+        (vec![("a", 2), ("b", 3)], "rename:x,x"),
+    ] {
+        g.op(format!("@ tensor {} {}", show_shape(&shape), ad));
+        g.count("tensor.source=rejected");
+    }
+}
+
+fn gen_shape_cases(g: &mut Gen) {
+    // every shape with lengths 0..=3 up to three dimensions (so every placement of zero lengths)
+    fn all(d: usize, cur: &mut Vec<usize>, out: &mut Vec<Vec<usize>>) {
+        if cur.len() == d {
+            out.push(cur.clone());
+            return;
+        }
+        for l in 0..=3 {
+            cur.push(l);
+            all(d, cur, out);
+            cur.pop();
+        }
+    }
+    let mut shapes = vec![];
+    for d in 0..=3 {
+        all(d, &mut vec![], &mut shapes);
+    }
+    shapes.extend(shapes_up_to(4, 36));
+    for _ in 0..(if g.thorough { 400 } else { 60 }) {
+        let d = g.rng.range(4, 6);
+        let mut lens = vec![];
+        let mut prod = 1usize;
+        for _ in 0..d {
+            let l = if g.rng.chance(1, 12) { 0 } else { g.rng.range(1, 4) };
+            if l > 0 && prod * l > 128 {
+                lens.push(1);
+            } else {
+                lens.push(l);
+                prod *= std::cmp::max(l, 1);
+            }
+        }
+        shapes.push(lens);
+    }
+    for lens in shapes {
+        let total: usize = lens.iter().product();
+        g.op(format!("@ shape {}", show_usizes(&lens)));
+        g.op(format!("iter n={} via=shapeiter", total + 3));
+        g.count(&format!("shape.D={}", lens.len()));
+        if lens.iter().any(|&l| l == 0) {
+            g.count("shape.with_zero_length");
+        }
+        g.count_n("shape.records", (total + 3) as u64);
+    }
+    // element counts that do not fit in usize: the length cannot be reported
+    for lens in [
+        vec![usize::MAX, 2],
+        vec![2, usize::MAX],
+        vec![1 << 32, 1 << 32],
+        vec![1 << 32, 1 << 31, 2],
+        vec![usize::MAX, 1],
+        vec![1, usize::MAX],
+        vec![usize::MAX],
+        vec![usize::MAX, 2, 0],
+        vec![0, usize::MAX, 2],
+        vec![1 << 63, 2, 1],
+    ] {
+        g.op(format!("@ shape {}", show_usizes(&lens)));
+        g.op("iter n=4 via=shapeiter".to_string());
+        g.count("shape.huge");
+    }
+}
+
+fn matrix_vias(ads: &[MAd], f: &str) -> Vec<&'static str> {
+    if f == "owned" {
+        if ads.is_empty() { vec!["matrix", "from"] } else { vec!["from"] }
+    } else if ads.is_empty() {
+        vec!["matrix", "from", "view"]
+    } else {
+        vec!["from", "view"]
+    }
+}
+
+fn emit_matrix_ops(g: &mut Gen, rows: usize, cols: usize, ads: &[MAd], all: bool) {
+    // (rows, cols) is the size of the view
+    let total = rows * cols;
+    let mut combos: Vec<(&str, &str, bool)> = vec![];
+    for k in ["rowmajor", "colmajor"] {
+        for f in FLAVOURS {
+            for wi in [false, true] {
+                combos.push((k, f, wi));
+            }
+        }
+    }
+    if !all {
+        g.rng.shuffle(&mut combos);
+        combos.truncate(4);
+    }
+    for (k, f, wi) in combos {
+        let via = *g.rng.pick(&matrix_vias(ads, f));
+        g.op(format!("iter k={} f={} wi={} n={} via={}", k, f, wi as u8, total + 3, via));
+        g.count(&format!("matrix.iter.k={}.f={}.wi={}", k, f, wi as u8));
+        g.count(&format!("matrix.via={}", via));
+        g.count_n("matrix.records", (total + 3) as u64);
+    }
+    for a in 0..=rows {
+        let f = *g.rng.pick(&["copy", "ref", "mut"]);
+        let via = *g.rng.pick(&matrix_vias(ads, f));
+        g.op(format!("iter k=row a={} f={} wi=0 n={} via={}", a, f, cols + 3, via));
+        g.count(if a < rows && cols > 0 { "matrix.row.valid" } else { "matrix.row.rejected" });
+    }
+    for a in 0..=cols {
+        let f = *g.rng.pick(&["copy", "ref", "mut"]);
+        let via = *g.rng.pick(&matrix_vias(ads, f));
+        g.op(format!("iter k=col a={} f={} wi=0 n={} via={}", a, f, rows + 3, via));
+        g.count(if a < cols && rows > 0 { "matrix.col.valid" } else { "matrix.col.rejected" });
+    }
+    for f in ["copy", "ref", "mut"] {
+        if all || g.rng.chance(1, 2) {
+            let via = *g.rng.pick(&matrix_vias(ads, f));
+            g.op(format!("iter k=diag f={} wi=0 n={} via={}", f, std::cmp::min(rows, cols) + 3, via));
+            g.count("matrix.diag");
+        }
+    }
+    for k in ["rowmajor", "colmajor"] {
+        let n = g.rng.below(total + 2);
+        g.op(format!("left k={} n={} via=from", k, n));
+        g.count("matrix.left");
+    }
+}
+
+fn clip(start: usize, len: usize, max: usize) -> usize {
+    std::cmp::min(start + len, max).saturating_sub(start)
+}
+
+fn gen_matrix_cases(g: &mut Gen) {
+    let mut sizes = vec![];
+    for r in 1..=36usize {
+        for c in 1..=36usize {
+            if r * c <= 36 && (g.thorough || (r <= 6 && c <= 6) || r == 1 || c == 1 && r % 5 == 0) {
+                sizes.push((r, c));
+            }
+        }
+    }
+    for (rows, cols) in sizes {
+        g.op(format!("@ matrix {} {}", rows, cols));
+        g.count("matrix.source=container");
+        emit_matrix_ops(g, rows, cols, &[], true);
+        if rows > 8 || cols > 8 {
+            continue;
+        }
+        // every way of being empty, plus random proper ranges, reversals and compositions
+        let mut views: Vec<Vec<MAd>> = vec![
+            vec![MAd::Range(0, 0, 0, cols)],            // 0 x N
+            vec![MAd::Range(0, rows, 0, 0)],            // N x 0
+            vec![MAd::Range(0, 0, 0, 0)],               // 0 x 0
+            vec![MAd::Range(rows, 2, 0, cols)],         // start beyond the end: 0 x N
+            vec![MAd::Range(0, rows, cols + 1, 1)],     // N x 0
+            vec![MAd::Reverse(true, false)],
+            vec![MAd::Reverse(false, true)],
+            vec![MAd::Reverse(true, true)],
+        ];
+        let n_random = if g.thorough { 8 } else { 3 };
+        for _ in 0..n_random {
+            let mut ads = vec![];
+            let (mut r, mut c) = (rows, cols);
+            for _ in 0..g.rng.range(1, 3) {
+                if g.rng.chance(2, 3) {
+                    let rs = g.rng.below(r + 1);
+                    let cs = g.rng.below(c + 1);
+                    let rl = if g.rng.chance(1, 5) { r + 2 } else { g.rng.below(r + 1) };
+                    let cl = if g.rng.chance(1, 5) { c + 2 } else { g.rng.below(c + 1) };
+                    ads.push(MAd::Range(rs, rl, cs, cl));
+                    r = clip(rs, rl, r);
+                    c = clip(cs, cl, c);
+                } else {
+                    ads.push(MAd::Reverse(g.rng.chance(1, 2), g.rng.chance(1, 2)));
+                }
+            }
+            views.push(ads);
+        }
+        for ads in views {
+            let (mut r, mut c) = (rows, cols);
+            for ad in &ads {
+                if let MAd::Range(rs, rl, cs, cl) = ad {
+                    r = clip(*rs, *rl, r);
+                    c = clip(*cs, *cl, c);
+                }
+            }
+            g.op(format!(
+                "@ matrix {} {} {}",
+                rows,
+                cols,
+                ads.iter().map(show_mad).collect::<Vec<_>>().join(" ")
+            ));
+            g.count(if r == 0 || c == 0 { "matrix.source=empty-view" } else { "matrix.source=view" });
+            if r == 0 && c > 0 {
+                g.count("matrix.view.0xN");
+            }
+            if c == 0 && r > 0 {
+                g.count("matrix.view.Nx0");
+            }
+            emit_matrix_ops(g, r, c, &ads, r == 0 || c == 0 || g.thorough);
+        }
+    }
+}
+
+pub fn gen(g: &mut Gen) {
+    gen_shape_cases(g);
+    gen_tensor_cases(g);
+    gen_matrix_cases(g);
+}
+
+#[allow(unused)]
+fn _unused() {
+    let _ = with_d!(0usize, D => D);
 }
